@@ -1,5 +1,69 @@
-import Pithos.Model.S3
+/-
+C13 — an existing object version never changes under the caller.
+-/
+import Pithos.Lemmas.S3FrozenStep
+import Pithos.Props.C01
+
 namespace Pithos.C13
 open Pithos.S3
-theorem placeholder_run_nil (q : Quirks) (s : State) : (run q s []).2 = [] := rfl
+
+/-- **version_frozen.** In a bucket whose versioning is Enabled or Suspended, take any row `r` that
+carries a version id (a ULID version or a delete marker — not the null version). After ANY
+operation that is not a delete — writes, copies, appends, multipart operations, tag changes,
+versioning-state changes, storage-class transitions, bucket operations, reads — the bucket still
+holds a row with the same row id, key, version id, delete-marker flag, parts (hence content and
+size) and ETag. When Last-Modified is not bumped by mere row saves (`touchOnAnySave = false`) its
+`updated` value is unchanged too. Holds for every state satisfying the row invariant, i.e. every
+reachable state, for the code's append behaviour since /repo 8a5dc41 (`appendLatestInPlace = false`). -/
+theorem version_frozen (q : Quirks) (hq : q.appendLatestInPlace = false) (s : State) (hinv : Inv s) (op : Op)
+    (b : String) (bk : Bucket) (r : Row) (hfb : findBucket s b = some bk) (hver : bk.ver ≠ .off)
+    (hr : r ∈ bk.rows) (hv : r.vid ≠ none) (hnd : ∀ b' k vid im, op ≠ .del b' k vid im) :
+    ∃ bk', findBucket (step q s op).1 b = some bk' ∧ ∃ r' ∈ bk'.rows, frozenEq q r r' :=
+  version_frozen_T q hq _ (inv_tick hinv) op b bk r hfb hver hr hv hnd
+
+/-- The same after any history: the state reached by `ops` satisfies the invariant. -/
+theorem version_frozen_reachable (q : Quirks) (hq : q.appendLatestInPlace = false) (ops : List Op) (op : Op)
+    (b : String) (bk : Bucket) (r : Row) (hfb : findBucket (run q {} ops).1 b = some bk) (hver : bk.ver ≠ .off)
+    (hr : r ∈ bk.rows) (hv : r.vid ≠ none) (hnd : ∀ b' k vid im, op ≠ .del b' k vid im) :
+    ∃ bk', findBucket (step q (run q {} ops).1 op).1 b = some bk' ∧ ∃ r' ∈ bk'.rows,
+      r'.parts = r.parts ∧ r'.etag = r.etag ∧ r'.vid = r.vid ∧ r'.key = r.key ∧
+      (q.touchOnAnySave = false → r'.updated = r.updated) := by
+  obtain ⟨bk', h1, r', h2, h3⟩ := version_frozen q hq _ (C01.reachable_inv q ops) op b bk r hfb hver hr hv hnd
+  exact ⟨bk', h1, r', h2, h3.2.2.2.2.1.symm, h3.2.2.2.2.2.1.symm, h3.2.2.1.symm, h3.2.1.symm,
+    fun h => (h3.2.2.2.2.2.2 h).symm⟩
+
+/-- **Negation witness (Last-Modified), code as it is** (`Quirks.code`: `touchOnAnySave = true`):
+version v0 is written, then v1 is written to the same key; v0's `updated` (Last-Modified) moves,
+because clearing its `is_latest` flag is a row save. Known finding C13.version-changed.last-modified. -/
+def lmOps : List Op :=
+  [.mkb "b", .setVer "b" .enabled, .put "b" "k" [1] {} false .none]
+
+theorem code_bumps_last_modified :
+    (match (step Quirks.code (run Quirks.code {} lmOps).1 (.head "b" "k" (some (some 0)))).2,
+           (step Quirks.code (step Quirks.code (run Quirks.code {} lmOps).1 (.put "b" "k" [2] {} false .none)).1
+              (.head "b" "k" (some (some 0)))).2 with
+     | .obj v, .obj v' => (v.updated, v'.updated, v.body == v'.body)
+     | _, _ => (0, 0, false)) = (3, 4, true) := by
+  decide
+
+/-- …while the reference behaviour (`touchOnAnySave = false`) leaves it alone on the same history. -/
+theorem reference_keeps_last_modified :
+    (match (step Quirks.none (run Quirks.none {} lmOps).1 (.head "b" "k" (some (some 0)))).2,
+           (step Quirks.none (step Quirks.none (run Quirks.none {} lmOps).1 (.put "b" "k" [2] {} false .none)).1
+              (.head "b" "k" (some (some 0)))).2 with
+     | .obj v, .obj v' => (v.updated, v'.updated)
+     | _, _ => (0, 1)) = (3, 3) := by
+  decide
+
+/-- **Negation witness for the code before /repo 8a5dc41** (`appendLatestInPlace = true`): in a
+suspended bucket an append extended the current ULID version in place — content of v0 changed. -/
+theorem before_fix_append_mutates_version :
+    let ops : List Op := [.mkb "b", .setVer "b" .enabled, .put "b" "k" [1] {} false .none, .setVer "b" .suspended,
+                          .append "b" "k" [9] none]
+    (match (step Quirks.beforeAppendFix (run Quirks.beforeAppendFix {} ops).1 (.get "b" "k" (some (some 0)))).2 with
+     | .obj v => v.body | _ => []) = [1, 9] ∧
+    (match (step Quirks.code (run Quirks.code {} ops).1 (.get "b" "k" (some (some 0)))).2 with
+     | .obj v => v.body | _ => []) = [1] := by
+  decide
+
 end Pithos.C13
